@@ -404,13 +404,22 @@ fn emit_expression_ctx(
             }
         }
         Expression::ListItems(items) => {
+            // `(x)` is a one-item list only when x is an item of some list; otherwise it
+            // is x in parentheses (the parser cannot tell, lists may be declared later).
+            if let [name] = items.as_slice()
+                && context.is_some_and(|ctx| ctx.resolve_list_item(name).is_none())
+            {
+                let inner = Expression::Variable(name.clone());
+                return emit_expression_ctx(&inner, out, context, scope);
+            }
             let mut list_map = serde_json::Map::new();
             for bare_name in items {
                 if let Some((qname, val)) = context.and_then(|ctx| ctx.resolve_list_item(bare_name))
                 {
                     list_map.insert(qname, json!(val));
                 } else {
-                    // Fallback: use bare name with value 0 (unknown list)
+                    // Not an item of any list: `references::check_story_references`
+                    // turns this into a compile error.
                     list_map.insert(bare_name.clone(), json!(0));
                 }
             }
